@@ -297,8 +297,8 @@ theorem stmtFrag_sub_Frag01 (s : Stmt) (hs : stmtFrag s = true) : Spec.Frag01 s 
   | alterRename _ _ => rfl
   | renameTable _ => rfl
   | noop _ _ => rfl
-  | update _ _ _ _ _ => rfl
-  | merge _ _ _ _ _ _ => rfl
+  | update _ _ _ _ _ => simp [stmtFrag] at hs
+  | merge _ _ _ _ _ _ => simp [stmtFrag] at hs
   | copy _ _ => rfl
   | unsupported _ => rfl
 
